@@ -29,7 +29,9 @@ REGISTRY = {
             "specSend_debits_bound", "specSendAll_debits_bound", "visible_le_true"],
     "C09": ["run_append", "cache_tracks_replay", "replay_append", "replay_effect", "replay_other_asset",
             "assocSet_get_same", "assocSet_get_other", "set_tx_meta_effect", "set_account_meta_effect"],
-    "C10": [], "C11": [],
+    "C10": ["store_independent", "world_never_requested", "batchQuery_no_world", "cache_never_forgets",
+            "cacheMerge_faithful"],
+    "C11": ["flag_only_gates_overdraft", "overdraft_gated", "store_independent"],
     "C12": ["run_never_panics", "evalExpr_never_panics", "getBalance_store_failure", "run_preload_failure",
             "meta_store_failure", "runBalancesQuery_no_call"],
     "C13": ["digitsVal_eq_posValue", "digitsVal_append_digit", "ratio_literal_exact", "percent_literal_exact",
